@@ -1,6 +1,8 @@
 // C10, search tier: SPSC soak of the real RingBuffer<T,N> / DynamicRingBuffer<T> under ThreadSanitizer (no DetSched).
 // The DRF theorem (R3) is about the model; this is the search for a real racing execution of the real class.
 // usage: c10_ring_tsan <milliseconds per configuration> <seed>
+// plus an MPMC soak of the real BlockingQueue<T> (3 producers, 3 consumers, a size()/empty()/full()/isClosed() sampler, close() at the
+// end): its race-freedom otherwise rests on the extracted lock discipline only.
 // prints one line per configuration: `<name> items=<n> fifo=<ok|BROKEN at k> maxsize=<m> cap=<c>`; TSan reports go to stderr.
 #include <atomic>
 #include <chrono>
@@ -10,6 +12,7 @@
 #include <string>
 #include <thread>
 #include <vector>
+#include "iora/core/blocking_queue.hpp"
 #include "iora/core/ring_buffer.hpp"
 
 using u64 = std::uint64_t;
@@ -82,6 +85,78 @@ template <class R> static void soak(const char* name, R& ring, std::size_t cap, 
   std::fflush(stdout);
 }
 
+static void soakBq(const char* name, std::size_t cap, int ms, u64 seed)
+{
+  iora::core::BlockingQueue<u64> q(cap);
+  constexpr int NP = 3, NC = 3;
+  std::atomic<bool> stop{false};
+  std::atomic<u64> put{0}, got{0};
+  std::atomic<std::size_t> maxsize{0};
+  std::string fifo = "ok";
+  std::atomic<bool> broken{false};
+  std::vector<std::thread> ts;
+  for (int p = 0; p < NP; ++p)
+    ts.emplace_back([&, p] {
+      u64 s = seed * 16 + static_cast<u64>(p), seq = 1;
+      while (!stop.load(std::memory_order_relaxed))
+      {
+        u64 v = (static_cast<u64>(p) << 32) | seq;
+        bool ok;
+        switch (rnd(s) % 5)
+        {
+          case 0: ok = q.queue(v); break;
+          case 1: { u64 m = v; ok = q.queue(std::move(m)); break; }
+          case 2: ok = q.tryQueue(v, std::chrono::milliseconds(1)); break;
+          case 3: ok = q.tryQueue(v); break;
+          default: { u64 m = v; ok = q.tryQueue(std::move(m)); break; }
+        }
+        if (ok) { ++seq; put.fetch_add(1, std::memory_order_relaxed); }
+      }
+    });
+  for (int c = 0; c < NC; ++c)
+    ts.emplace_back([&, c] {
+      u64 s = seed * 16 + 8 + static_cast<u64>(c);
+      u64 last[NP] = {0, 0, 0};
+      for (;;)
+      {
+        u64 v = 0;
+        bool ok;
+        switch (rnd(s) % 3)
+        {
+          case 0: ok = q.dequeue(v); break;
+          case 1: ok = q.dequeue(v, std::chrono::milliseconds(1)); break;
+          default: ok = q.tryDequeue(v); break;
+        }
+        if (ok)
+        {
+          u64 p = v >> 32, seq = v & 0xffffffffu;
+          if (p >= NP || seq <= last[p]) broken.store(true);
+          else last[p] = seq;
+          got.fetch_add(1, std::memory_order_relaxed);
+        }
+        else if (q.isClosed() && q.empty()) return;
+      }
+    });
+  ts.emplace_back([&] {
+    while (!stop.load(std::memory_order_relaxed))
+    {
+      std::size_t n = q.size();
+      std::size_t m = maxsize.load(std::memory_order_relaxed);
+      if (n > m) maxsize.store(n, std::memory_order_relaxed);
+      (void)q.empty(); (void)q.full(); (void)q.isClosed(); (void)q.capacity();
+      std::this_thread::yield();
+    }
+  });
+  std::this_thread::sleep_for(std::chrono::milliseconds(ms));
+  stop.store(true);
+  q.close();
+  for (auto& t : ts) t.join();
+  if (broken.load()) fifo = "BROKEN per-producer order or foreign item";
+  else if (put.load() != got.load() + q.size()) fifo = "BROKEN lost: put " + std::to_string(put.load()) + " got " + std::to_string(got.load()) + " left " + std::to_string(q.size());
+  std::printf("%s items=%llu fifo=%s maxsize=%zu cap=%zu\n", name, static_cast<unsigned long long>(put.load()), fifo.c_str(), maxsize.load(), cap);
+  std::fflush(stdout);
+}
+
 int main(int argc, char** argv)
 {
   int ms = argc > 1 ? std::atoi(argv[1]) : 300;
@@ -92,5 +167,7 @@ int main(int argc, char** argv)
   { iora::core::RingBuffer<u64, 1> r; soak("static1-single", r, 1, ms, false, seed + 2); }
   { iora::core::DynamicRingBuffer<u64> r(3); soak("dynamic4-single", r, 4, ms, false, seed + 3); }
   { iora::core::DynamicRingBuffer<u64> r(8); soak("dynamic8-batch", r, 8, ms, true, seed + 4); }
+  soakBq("bq-mpmc-cap4", 4, ms, seed + 5);
+  soakBq("bq-mpmc-cap1", 1, ms, seed + 6);
   return 0;
 }
